@@ -139,6 +139,8 @@ func registerAll() {
 			{name: "outdir-direct-enumerate", build: "gen2", params: map[string]any{"mode": "c16-direct", "faults": "none", "enumerate": true}, quick: tierCfg{wallSec: 20}, thorough: tierCfg{wallSec: 900}},
 			{name: "outdir-real-tl2gen", build: "gen2", params: map[string]any{"mode": "c16-real"}, quick: tierCfg{wallSec: 30}, thorough: tierCfg{wallSec: 900}},
 			{name: "outdir-real-tlgen", build: "gen1", params: map[string]any{"mode": "c16-real"}, quick: tierCfg{wallSec: 20}, thorough: tierCfg{wallSec: 600}},
+			{name: "outdir-real-enumerate-tl2gen", build: "gen2", params: map[string]any{"mode": "c16-real", "enumerate": true}, thorough: tierCfg{wallSec: 1200}},
+			{name: "outdir-real-enumerate-tlgen", build: "gen1", params: map[string]any{"mode": "c16-real", "enumerate": true}, thorough: tierCfg{wallSec: 900}},
 		},
 		rule: "each evaluation is a history of 2..6 generations into one directory of the simulated disk, with foreign files planted (root, nested, marker removed) and disk faults (EIO, ENOSPC, EACCES, torn write, crash at mutating operation k). outdir-direct*: the real OutDir.Write driven with synthetic file maps (files appear, change, stay identical, disappear; nested directories; the documented '..' runtime path) under the token scheduler with writer pool width 1..8; outdir-real-*: the real generators switching between schema/option triples. Oracle against a path->content model: success => directory == exactly the generation's files (stale files gone, nested too); unchanged files have zero write operations in the operation log; non-empty directory without marker => refused with zero mutating operations; no mutating operation outside the output directory except the runtime-library location; failure under a fault => only whole old/new files (or a torn prefix). outdir-direct-enumerate: for each sampled history the last generation is re-run with EVERY fault kind at EVERY mutating-operation index (the single-fault space of that history is enumerated), followed by a fault-free generation that must restore exactness or refuse. Non-trivial = at least a second generation ran; distinct = distinct history log.",
 		assumptions: []string{stdAssume, "leftover empty directories are tolerated, as the code documents", "the legacy C++ writer deliberately keeps *.o files; histories do not plant them"},
